@@ -82,6 +82,18 @@ pub fn nearest(c: Rgb, candidates: &[Rgb]) -> (usize, i64, bool) {
     (best, bd, tie)
 }
 
+/// RGB values that some terminal palette names exactly: the 240 fixed xterm colours (6x6x6 cube
+/// levels 0/95/135/175/215/255 and the 24 greys) and the VGA / Windows-10 16-colour palettes.
+/// Code that special-cases "colours an indexed palette can express" keys on these.
+pub fn special_rgb() -> Vec<Rgb> {
+    let mut v = xterm_candidates();
+    v.extend_from_slice(&VGA);
+    v.extend_from_slice(&WIN10);
+    v.sort();
+    v.dedup();
+    v
+}
+
 pub fn xterm_candidates() -> Vec<Rgb> {
     (16..256).map(xterm240).collect()
 }
